@@ -451,51 +451,7 @@ def order_limit(rel, q, ctx, combos):
       keys.append((rel.col(e[1]), desc))
     else:
       raise Unsupported('ORDER BY expression')
-  slots = rel.slots
-  n = len(slots)
-
-  def before(r1, r2):
-    """row r1 sorts strictly before r2."""
-    res = False
-    eq_prefix = True
-    for c, desc in keys:
-      a, b = r1[c], r2[c]
-      if not (isinstance(a, S) and isinstance(b, S)):
-        raise Unsupported('ORDER BY structured column')
-      lt = V.LT(V._num(b), V._num(a)) if desc else V.LT(V._num(a), V._num(b))
-      res = OR(res, AND(eq_prefix, lt))
-      eq_prefix = AND(eq_prefix, EQ(V._num(a), V._num(b)))
-    return res, eq_prefix
-  # assumption: sort keys of present rows are pairwise distinct and non-null
-  for i in range(n):
-    for c, _ in keys:
-      ctx.assumptions.append(V.IMPLIES(slots[i][0], NOT(slots[i][1][c].null)))
-    for j in range(i):
-      _, same = before(slots[i][1], slots[j][1])
-      ctx.assumptions.append(V.IMPLIES(AND(slots[i][0], slots[j][0]), NOT(same)))
-  rank = []
-  for i in range(n):
-    cnt = []
-    for j in range(n):
-      if i == j:
-        continue
-      b, _ = before(slots[j][1], slots[i][1])
-      cnt.append(B2I(AND(slots[j][0], b)))
-    rank.append(SUM(cnt))
-  limit = q['limit']
-  kmax = n if limit is None else min(limit, n)
-  out = []
-  for p in range(kmax):
-    guard = OR(*[AND(slots[i][0], EQ(rank[i], p)) for i in range(n)])
-    row = None
-    for i in reversed(range(n)):
-      c = AND(slots[i][0], EQ(rank[i], p))
-      if row is None:
-        row = list(slots[i][1])
-      else:
-        row = [V.ite_val(c, a, b) for a, b in zip(slots[i][1], row)]
-    out.append((guard, row))
-  return Rel(rel.cols, out, ordered=True, distinct=rel.distinct)
+  return V.order_limit_rel(rel, keys, q['limit'], ctx.assumptions)
 
 
 # ------------------------------------------------------------------ scripts
